@@ -78,7 +78,7 @@ func init() {
 		"fmt.Fprintf":             noEffect,
 		"fmt.Fprintln":            noEffect,
 		"strconv.Itoa":            freshString,
-		"os.IsNotExist":           noEffect,
+		"os.IsNotExist":           fsIsNotExist,
 		"path/filepath.Join":      pathJoin,
 		"path.Join":               pathJoin,
 		"math.Float64bits":        float64bits,
@@ -122,17 +122,21 @@ func init() {
 		"io.ReadFull":                             ioReadFull,
 		"encoding/binary.Read":                    binaryRead,
 		"encoding/binary.Write":                   noEffect,
-		"(*os.File).Write":                        fsWrite,
+		"(*os.File).Write":                        fsFileWrite,
 		"(*os.File).WriteAt":                      fsWrite,
 		"(*os.File).WriteString":                  fsWrite,
 		"os.WriteFile":                            fsWriteFile,
 		"io/ioutil.WriteFile":                     fsWriteFile,
-		"os.Create":                               fsWrite,
+		"os.Create":                               fsCreate,
 		"os.OpenFile":                             fsOpen,
 		"os.MkdirAll":                             fsWrite,
 		"os.Remove":                               fsWrite,
 		"os.Rename":                               fsWrite,
 		"sort.Slice":                              sortSlice,
+		"bytes.NewReader":                         bytesNewReader,
+		"bufio.NewScanner":                        bufioNewScanner,
+		"(*bufio.Scanner).Scan":                   scannerScan,
+		"(*bufio.Scanner).Text":                   scannerText,
 	}
 	externalModels = map[string]intrinsic{
 		"os.Open":                            valOrErr,
@@ -146,8 +150,10 @@ func init() {
 		"(*archive/zip.Writer).CreateHeader": valOrErr,
 		"(*archive/zip.Writer).Create":       valOrErr,
 		"(*encoding/csv.Reader).Read":        csvRead,
-		"os.ReadFile":                        noEffect,
-		"io/ioutil.ReadFile":                 noEffect,
+		"strconv.ParseInt":                   parseIntModel,
+		"strconv.ParseFloat":                 parseFloatModel,
+		"os.ReadFile":                        fsReadFile,
+		"io/ioutil.ReadFile":                 fsReadFile,
 		"crypto/rand.Int":                    randInt,
 		"math/big.NewInt":                    bigNewInt,
 		"(*math/big.Int).Int64":              bigInt64,
@@ -496,14 +502,6 @@ func (vc *VC) DeclareFun(name string, args []Sort, res Sort) {
 	vc.cmds = append(vc.cmds, fmt.Sprintf("(declare-fun %s (%s) %s)", name, strings.Join(as, " "), res))
 }
 
-// File-system mutations bump the ghost counter $fsWrites ("the persisted
-// state was touched"); results are unconstrained (the call may fail).
-func fsWrite(ex *Exec, st *State, fr *Frame, callee *ssa.Function, args []Val, c *ssa.CallCommon, pos token.Pos) Val {
-	ex.ghostBump(st, "$fsWrites")
-	ex.vc.Trust("file-system calls (" + callee.Name() + "): results unconstrained, no effect on verified memory; $fsWrites counts mutating calls")
-	return ex.valOrErrResults(st, c.Signature().Results(), "fs")
-}
-
 // valOrErr: library functions of the shape (T, error) with T a pointer or
 // interface return a non-nil T when the error is nil (documented behaviour of
 // the listed functions).
@@ -526,16 +524,6 @@ func (ex *Exec) valOrErrResults(st *State, res *types.Tuple, hint string) Val {
 		}
 	}
 	return v
-}
-
-// os.OpenFile mutates the file system only with O_CREATE / O_TRUNC.
-func fsOpen(ex *Exec, st *State, fr *Frame, callee *ssa.Function, args []Val, c *ssa.CallCommon, pos token.Pos) Val {
-	flag := sc(args[1]).T
-	if v, ok := constBV(flag); !ok || v&(0x40|0x200) != 0 {
-		ex.ghostBump(st, "$fsWrites")
-	}
-	ex.vc.Trust("file-system calls (OpenFile): results unconstrained, no effect on verified memory")
-	return ex.valOrErrResults(st, c.Signature().Results(), "fs")
 }
 
 // httpRespErr: the documented contract of http.Post/Get/Do: the response is
@@ -696,28 +684,6 @@ func pathJoin(ex *Exec, st *State, fr *Frame, callee *ssa.Function, args []Val, 
 	return r
 }
 
-const ghostFileKey = "GhostFile"
-
-func ghostFileSort() Sort { return ArrS(SRef, ArrS(SStr, BV(64))) }
-
-func fsWriteFile(ex *Exec, st *State, fr *Frame, callee *ssa.Function, args []Val, c *ssa.CallCommon, pos token.Pos) Val {
-	ex.ghostBump(st, "$fsWrites")
-	ex.vc.DeclareFun("PathLast", []Sort{SStr}, SStr)
-	res := ex.valOrErrResults(st, c.Signature().Results(), "fs")
-	errT := z64()
-	if s, ok := res.(Sc); ok {
-		errT = s.T
-	}
-	name := app("PathLast", sc(args[0]).T)
-	id := ex.bytesIdAny(st, args[1], c.Args[1].Type())
-	cur := ex.comp(st, ghostFileKey, ghostFileSort())
-	// on success the file holds exactly these bytes; on failure its content is unknown
-	unk := ex.vc.Fresh("filecontent", BV(64))
-	ex.setComp(st, ghostFileKey, ghostFileSort(), sto(cur, z64(), sto(sel(cur, z64()), name, ite(eq(errT, z64()), id, unk))))
-	ex.vc.Trust("file-system model: a successful os.WriteFile leaves the file holding exactly the bytes written (whole-file ghost content per file name)")
-	return res
-}
-
 // bytesIdAny: identity of a byte slice of any (possibly symbolic) length.
 func (ex *Exec) bytesIdAny(st *State, v Val, t types.Type) string {
 	sv := ex.viewSlice(v, t)
@@ -740,4 +706,28 @@ func (ex *Exec) bytesIdAny(st *State, v Val, t types.Type) string {
 		return ex.msgId(Sc{ex.vc.Bind("msgbytes", BV(8*int(n)), tt), BV(8 * int(n))})
 	}
 	return ex.vc.Fresh("bytesid", BV(64))
+}
+
+// strconv.ParseInt / ParseFloat are deterministic functions of their string
+// argument (base 10 / 64 bit as used here): value and failure are
+// uninterpreted functions of the string, so contracts can speak about "the
+// number this column parses to" (contract functions PIVal, PIErr, PFVal, PFErr).
+func parseIntModel(ex *Exec, st *State, fr *Frame, callee *ssa.Function, args []Val, c *ssa.CallCommon, pos token.Pos) Val {
+	ex.vc.Trust("strconv.ParseInt / ParseFloat: value and error are functions of the string argument (documented behaviour; base 10, 64 bit)")
+	ex.vc.DeclareFun("PIVal", []Sort{SStr, BV(64), BV(64)}, BV(64))
+	ex.vc.DeclareFun("PIErr", []Sort{SStr, BV(64), BV(64)}, SBool)
+	s, base, bits := sc(args[0]).T, sc(args[1]).T, sc(args[2]).T
+	e := ex.vc.Fresh("perr", SRef)
+	ex.assume(st, eq(eq(e, z64()), not(app("PIErr", s, base, bits))))
+	return &Agg{F: []Val{Sc{app("PIVal", s, base, bits), BV(64)}, Sc{e, SRef}}}
+}
+
+func parseFloatModel(ex *Exec, st *State, fr *Frame, callee *ssa.Function, args []Val, c *ssa.CallCommon, pos token.Pos) Val {
+	ex.vc.Trust("strconv.ParseInt / ParseFloat: value and error are functions of the string argument (documented behaviour; base 10, 64 bit)")
+	ex.vc.DeclareFun("PFVal", []Sort{SStr}, SFP)
+	ex.vc.DeclareFun("PFErr", []Sort{SStr}, SBool)
+	s := sc(args[0]).T
+	e := ex.vc.Fresh("perr", SRef)
+	ex.assume(st, eq(eq(e, z64()), not(app("PFErr", s))))
+	return &Agg{F: []Val{Sc{app("PFVal", s), SFP}, Sc{e, SRef}}}
 }
